@@ -3,6 +3,7 @@ monitor binaries, three-valued verdicts, known findings, evidence and replay fil
 import hashlib
 import json
 import os
+import re
 import shutil
 import subprocess
 import sys
@@ -234,6 +235,19 @@ def label_array(name, v):
     return v
 
 
+HARNESS_PATH = re.compile(r"(^|/)(harness/|vcore/src|refmodel/src|vwincon/src/c1|vwincon/src/lib|vh/src|vh-mem/src|vh-mt/src|vh-env/src|vfeat/src|vautofeat/src)")
+PANIC_AT = re.compile(r"(?:\[panicked at |UNGUARDED-PANIC at )([^\]\s:]+):(\d+)")
+
+
+def harness_panic(text):
+    """If `text` reports a panic whose location lies in the monitor's own sources, return that location (a mistake of the
+    machinery: inconclusive, never a violation); None for panics in the repository's crates or of unknown origin."""
+    m = PANIC_AT.search(text or "")
+    if m and HARNESS_PATH.search(m.group(1)):
+        return "%s:%s" % (m.group(1), m.group(2))
+    return None
+
+
 class Result:
     """Accumulates lane results for one property run."""
 
@@ -279,8 +293,15 @@ class Result:
             if n not in self.exhaustive_parts:
                 self.exhaustive_parts.append(n)
         for v in d.get("violations", []):
-            lane_rec["verdict"] = "violated"
             ex = (v.get("examples") or [{}])[0]
+            hp = harness_panic(ex.get("msg", ""))
+            if hp:
+                # the monitor's own code panicked (e.g. an arithmetic overflow in a workload generator under the debug
+                # profile): a mistake of the machinery, reported as inconclusive and never as a violation
+                self.inconclusive.append({"lane": lane, "why": "the monitor's own code panicked at %s (signature %s): %s" % (hp, v["sig"], ex.get("msg", "")[:300])})
+                lane_rec["verdict"] = "inconclusive"
+                continue
+            lane_rec["verdict"] = "violated"
             self.violations.append({"sig": v["sig"], "count": v["count"], "example": ex, "check": check or d.get("check"), "lane": lane})
         self.lanes.append(lane_rec)
         return lane_rec
